@@ -173,6 +173,65 @@ def mutate(h, kind, n):
             h.definition = "c20 mutated b %d" % n
 
 
+def mutate_delete(h, kind, n):
+    """removes something the entity owns (or one of its links); returns False when there is nothing to remove"""
+    if kind == "block":
+        for cname in (("data_arrays", "tags", "multi_tags", "groups", "data_frames", "sources") * 2)[n % 6:]:
+            c = getattr(h, cname)
+            if len(c):
+                del c[c[n % len(c)].name if n % 2 else n % len(c)]
+                return True
+        return False
+    if kind == "section":
+        if len(h.props) and (n % 2 or not len(h.sections)):
+            del h.props[n % len(h.props)]
+            return True
+        if len(h.sections):
+            del h.sections[n % len(h.sections)]
+            return True
+        return False
+    if kind in ("tag", "mtag"):
+        if len(h.features) and n % 2:
+            del h.features[0]
+            return True
+        if len(h.references):
+            del h.references[n % len(h.references)]
+            return True
+        if len(h.sources):
+            del h.sources[0]
+            return True
+        return False
+    if kind == "array":
+        if len(h.dimensions):
+            h.delete_dimensions()
+            return True
+        if len(h.sources):
+            del h.sources[0]
+            return True
+        return False
+    return False
+
+
+def link_lists(h, kind):
+    """(label, link list) for every link list found in the entity and, for a block, in what it owns"""
+    out = []
+    if kind == "block":
+        for g in h.groups:
+            for role in ("data_arrays", "data_frames", "tags", "multi_tags", "sources"):
+                out.append(("group." + role, getattr(g, role)))
+        for t in h.tags:
+            out += [("tag.references", t.references), ("tag.sources", t.sources)]
+        for t in h.multi_tags:
+            out += [("mtag.references", t.references), ("mtag.sources", t.sources)]
+        for a in h.data_arrays:
+            out.append(("array.sources", a.sources))
+    elif kind in ("tag", "mtag"):
+        out += [(kind + ".references", h.references), (kind + ".sources", h.sources)]
+    elif kind == "array":
+        out.append(("array.sources", h.sources))
+    return out
+
+
 def run_case(case, ctx):
     p1 = os.path.join(ctx.workdir, "c20a.nix")
     p2 = os.path.join(ctx.workdir, "c20b.nix")
@@ -363,6 +422,33 @@ def run_case(case, ctx):
             nontrivial = True
         if internal:
             flags.add("internal-links")
+        # ---------------- the link lists of the copy answer for their members like any link list (by id, by object)
+        nlists = 0
+        for label, lst in link_lists(ch, kind):
+            try:
+                members = list(lst)
+            except Exception:  # noqa  (a list that cannot be iterated is the content comparison's business)
+                continue
+            for m in members:
+                nlists += 1
+                probs = []
+                try:
+                    if m.id not in lst:
+                        probs.append("id-not-in-list")
+                    if m not in lst:
+                        probs.append("member-not-in-list")
+                    if lst[m.id].id != m.id:
+                        probs.append("lookup-by-id-gives-another")
+                except KeyError:
+                    probs.append("lookup-by-id-fails")
+                except Exception as exc:  # noqa
+                    probs.append("lookup-raised-" + type(exc).__name__)
+                if probs:
+                    ctx.violation("C20/copy-link-list-disagrees-with-its-members/%s/%s" % (key_cls, label), case,
+                                  {"member": [m.name, m.id], "problems": probs})
+                    break
+        if nlists:
+            flags.add("copy-link-lists-probed")
         # ---------------- returned handle denotes the copy
         same_parent_cls = "same-parent" if same_container else "other-container"
         try:
@@ -376,8 +462,15 @@ def run_case(case, ctx):
         for j, side in enumerate(case.get("mutations", [])):
             Ws0 = walk.walk_obj(it.handle(src), timestamps=False, seen=True)
             Wc0 = walk.walk_obj(dest_container(dest_it, dparent, kind)[exp_name], timestamps=False, seen=True)
+            n_ = j + spec.get("d", 0) + spec.get("t", 0)
             try:
-                if side == "copy":
+                if side in ("copy-del", "source-del"):
+                    hdel = dest_container(dest_it, dparent, kind)[exp_name] if side == "copy-del" else it.handle(src)
+                    if not mutate_delete(hdel, kind, n_):
+                        ctx.count("nothing-to-delete")
+                        continue
+                    it.positional_ok = False
+                elif side == "copy":
                     mutate(dest_container(dest_it, dparent, kind)[exp_name], kind, j + spec.get("d", 0) + spec.get("t", 0))
                 elif side == "returned":
                     mutate(ret, kind, j + spec.get("d", 0) + spec.get("t", 0))
@@ -389,10 +482,11 @@ def run_case(case, ctx):
             Ws1 = walk.walk_obj(it.handle(src), timestamps=False, seen=True)
             Wc1 = walk.walk_obj(dest_container(dest_it, dparent, kind)[exp_name], timestamps=False, seen=True)
             flags.add("mutate:" + side)
-            if side == "source":
+            if side in ("source", "source-del"):
                 dd = walk.diff(Wc0, Wc1)
                 if dd:
-                    ctx.violation("C20/not-independent/source-change-visible-in-copy/%s" % key_cls, case, {"path": dd[0]})
+                    ctx.violation("C20/not-independent/%s-visible-in-copy/%s" % ("source-change" if side == "source" else "delete-in-source", key_cls),
+                                  case, {"path": dd[0]})
                 if not walk.diff(Ws0, Ws1):
                     ctx.count("mutation-invisible")
             else:
@@ -436,7 +530,7 @@ def case_strategy():
     return st.fixed_dictionaries({
         "build": ops.program(BUILD, min_size=0, max_size=12, name_pool=["sig", "sub", "p1"]),
         "copy": copy,
-        "mutations": st.lists(st.sampled_from(["copy", "source", "returned"]), min_size=1, max_size=5),
+        "mutations": st.lists(st.sampled_from(["copy", "source", "returned", "copy-del", "source-del"]), min_size=1, max_size=5),
         "precopy": st.one_of(st.none(), st.none(), st.fixed_dictionaries({
             "kind": st.sampled_from(["array", "tag", "frame", "section", "prop", "mtag"]), "t": ops.IDX}))})
 
